@@ -83,6 +83,17 @@ class NoneObject:
     def __len__(self):
         return 0
 
+    def _absorb(a, *args):
+        """Arithmetic and bitwise operations on a missing field yield the missing field again,
+        so a comparison with the result is False (instead of raising a TypeError)."""
+        return a
+
+    __add__ = __radd__ = __sub__ = __rsub__ = __mul__ = __rmul__ = _absorb
+    __truediv__ = __rtruediv__ = __floordiv__ = __rfloordiv__ = __mod__ = __rmod__ = _absorb
+    __pow__ = __rpow__ = __lshift__ = __rlshift__ = __rshift__ = __rrshift__ = _absorb
+    __and__ = __rand__ = __or__ = __ror__ = __xor__ = __rxor__ = _absorb
+    __neg__ = __pos__ = __invert__ = _absorb
+
 
 NONE_OBJECT = NoneObject()
 
@@ -618,7 +629,7 @@ class RecordContextMatcher:
             left = self.eval(node.left)
             right = self.eval(node.right)
             if isinstance(left, NoneObject) or isinstance(right, NoneObject):
-                return False
+                return NONE_OBJECT
             return AST_OPERATORS[type(node.op)](left, right)
         elif isinstance(node, ast.UnaryOp):
             return AST_OPERATORS[type(node.op)](self.eval(node.operand))
